@@ -146,6 +146,14 @@ class PEngine:
                        if self.pure.call(SK + "::is_trivia", [("e", SK, k)]) == 1]
         self.universe = [k for k in self.lex_kinds if k not in self.trivia] + ["EOF"]
         self.ALL = frozenset(self.universe)
+        # every Parser method that writes Parser.pos is a consuming leaf (modelled like bump: rules/parser_model.py
+        # checks each of them for "+1 and one Advance"); a refactoring may add siblings of bump
+        from . import effects as _EF
+        self.movers = set()
+        for p_, f_ in F.fns.items():
+            if p_.startswith(PARSER) and f_.blocks and "{closure" not in p_:
+                if any(e["field"] == "pos" and e["how"] == "assign" for e in _EF.field_effects(f_, PARSER[:-2])):
+                    self.movers.add(p_)
         self.table = {}
         self.callers = defaultdict(set)
         self.queue = []
@@ -529,6 +537,8 @@ class PEngine:
             return self.split((bb, S, envt, prog, since0, la, marks, ntok, nodes, brace_open, stray), groups.values())
 
         leaf = name[len(PARSER):] if name.startswith(PARSER) and name[len(PARSER):] in LEAVES else None
+        if leaf is None and name in self.movers:
+            leaf = "bump"
         if self.singletons and len(S) > 1 and (leaf in ("nth", "eof", "bump") or leaf is None):
             return self.split((bb, S, envt, prog, since0, la, marks, ntok, nodes, brace_open, stray), [[k2] for k2 in sorted(S)])
         if leaf == "nth":
